@@ -45,6 +45,10 @@ def feature_tables(n, small=False):
     if n >= 3:
         extra.append([("misc_feature", [(0, 1, 1), (2, 2, 1)], {"label": ["join-with-marker"]})])
     if n >= 3:
+        # parts that point into another record (`ref`): alone and inside a join with local parts
+        extra.append([("misc_feature", [(1, 3, 1, "remote")], {"label": ["remote"]}),
+                      ("gene", [(n - 1, n, 1), (0, 2, -1, "remote"), (0, 1, 1)], {"label": ["join-with-remote"]})])
+    if n >= 3:
         # approximate boundaries (GenBank `(1.2)..3`, `1^2`-style between positions, one-of, `<1..>3`): the position classes of
         # Biopython other than ExactPosition; the feature still denotes the stretch between its default coordinates
         extra.append([("misc_feature", [(1, 3, 1, "within")], {"label": ["within"]}), ("misc_feature", [(0, 2, -1, "oneof")], {"label": ["oneof"]})])
@@ -74,7 +78,9 @@ def build_location(parts):
     from Bio.SeqFeature import FeatureLocation, CompoundLocation
     locs = []
     for p in parts:
-        if len(p) > 3 and p[3]:
+        if len(p) > 3 and p[3] == "remote":
+            locs.append(FeatureLocation(p[0], p[1], strand=p[2], ref="J00194.1", ref_db="gb" if p[0] % 2 else None))
+        elif len(p) > 3 and p[3]:
             a, b = fuzzy_bounds(p[0], p[1], p[3])
             locs.append(FeatureLocation(a, b, strand=p[2]))
         else:
@@ -102,6 +108,11 @@ def den_parts(feature, n):
         return None
     out = []
     for p in loc.parts:
+        if getattr(p, "ref", None) is not None:
+            # a part that points into ANOTHER record (GenBank `J00194.1:100..202`): it denotes nothing of this one and is
+            # carried as it is by every operation
+            out.append(((("ref", str(p.ref), str(getattr(p, "ref_db", None)), int(p.start), int(p.end)),), p.strand))
+            continue
         if int(p.end) == int(p.start):
             # a zero-length part denotes the boundary before position `start`: written as the half-integer position
             # start - 1/2 (rotations add to it, the mirror image n - 1 - x sends it to the boundary it should)
@@ -122,7 +133,7 @@ def reading(den, text):
         return None
     out = []
     for (pos, strand) in den:
-        letters = [text[p] for p in pos if isinstance(p, int)]      # (a boundary marker spells nothing)
+        letters = [text[p] for p in pos if isinstance(p, int)]      # (a boundary marker or a remote part spells nothing)
         rc_ = [_COMP.get(c.upper(), c) if c.isupper() else _COMP.get(c.upper(), c).lower() for c in reversed(letters)]
         if strand == -1:
             letters = rc_
@@ -184,7 +195,7 @@ def compare_rotation(base, obs, i, n, label):
             pb.append("%s: feature %s has %d parts, expected %d" % (label, fb["id"], len(fo["den"]), len(fb["den"])))
             continue
         for (po, so), (pbase, sb) in zip(fo["den"], fb["den"]):
-            want = tuple((p + i) % n for p in pbase)
+            want = tuple(p if isinstance(p, tuple) else (p + i) % n for p in pbase)
             whole_source = fb["type"] == "source" and len(pbase) == n and len(fb["den"]) == 1
             same = (sorted(po) == sorted(want)) if whole_source else (po == want)
             if not same or so != sb:      # (a rotation carries the strand of every part over as it is, None included)
